@@ -3,6 +3,8 @@ import SciVerif.Props.C16
 import SciVerif.Tie.Pins
 /-! Tie A obligations for C16 on the current source. -/
 namespace SciVerif.Tie
+-- functions the model relies on without an obligation of its own naming them (pinned by bin/mkpins):
+-- PIN-ALSO: Scipipe.InPort_Ready Scipipe.OutPort_Ready Scipipe.InParamPort_Ready Scipipe.OutParamPort_Ready Scipipe.InPort_Disconnect Scipipe.OutPort_Disconnect Scipipe.OutParamPort_Disconnect Scipipe.InPort_SetReady Scipipe.OutPort_SetReady Scipipe.InParamPort_SetReady Scipipe.OutParamPort_SetReady Scipipe.Sink_From Scipipe.Sink_FromParam Scipipe.Workflow_AddProc Scipipe.Workflow_Proc Scipipe.InParamPort_FromStr
 open SciVerif.Generated SciVerif.Graph
 
 theorem generated_run_sem_good : good runSem := by decide
@@ -33,12 +35,29 @@ theorem c16_on_source (wf : Wf) (hac : acyclic wf) (ts : List Nat) (hts : ∀ t 
   c16_runset_is_closure runSem generated_run_sem_good.1 generated_run_sem_good.2.2.2.2.2.2.1 generated_run_sem_good.2.2.2.2.2.2.2 wf hac ts hts
 
 
+
 -- BEGIN PINS (written by bin/mkpins; do not edit by hand)
 /-- the Go functions this property's model and obligations were written against have exactly the
 pinned skeletons (SHA-256 prefix of the atom list) -/
 theorem pinned_skeletons_c16 :
     pinsOk
     [("Scipipe.BaseProcess_Ready", "71e6e586b2c2ee4c"),
+     ("Scipipe.InParamPort_FromStr", "82f932a5d19fe28f"),
+     ("Scipipe.InParamPort_Ready", "338b778c4d30bafe"),
+     ("Scipipe.InParamPort_SetReady", "1d81cf7a998ea142"),
+     ("Scipipe.InPort_Disconnect", "2d058fead9c77bdd"),
+     ("Scipipe.InPort_Ready", "e7c4d0f1d8ce491c"),
+     ("Scipipe.InPort_SetReady", "28ab5e17a572a39d"),
+     ("Scipipe.OutParamPort_Disconnect", "1a71a40de11b44f8"),
+     ("Scipipe.OutParamPort_Ready", "4e1487fcb30ac148"),
+     ("Scipipe.OutParamPort_SetReady", "ac7757c9aa44795d"),
+     ("Scipipe.OutPort_Disconnect", "2d058fead9c77bdd"),
+     ("Scipipe.OutPort_Ready", "e7c4d0f1d8ce491c"),
+     ("Scipipe.OutPort_SetReady", "28ab5e17a572a39d"),
+     ("Scipipe.Sink_From", "c72c1df4af5c0d68"),
+     ("Scipipe.Sink_FromParam", "be5cd0eedafe3561"),
+     ("Scipipe.Workflow_AddProc", "bc7195e782cf60e1"),
+     ("Scipipe.Workflow_Proc", "d0b2b26039d5b3fe"),
      ("Scipipe.Workflow_Run", "7a0a30673bb14a0e"),
      ("Scipipe.Workflow_RunTo", "7a0a61bbd770cc4c"),
      ("Scipipe.Workflow_RunToProcs", "397593629fe3c425"),
